@@ -7,6 +7,7 @@ import numpy as np
 
 from .. import assume as A
 from .. import spec
+from ..report import FAILED, PROVED, ob
 from ..env import functions, heavy
 from ..symx import harness as H
 from ..symx.sym import Sym, SymBool
@@ -174,6 +175,145 @@ def task_history(shape):
 task_history.contract_fn = "functions.IndexableFunction.eval"
 
 
+# --------------------------------------------------------------------------------------
+# engine B: every index form on concrete vectors, and histories with in-place changes of the knot vector
+# --------------------------------------------------------------------------------------
+B_VECTORS = {
+    "p0": [Fraction(0), Fraction(1), Fraction(5, 2), Fraction(3)],
+    "p1": [Fraction(0)] * 2 + [Fraction(1), Fraction(1), Fraction(2)] + [Fraction(3)] * 2,
+    "p2": [Fraction(-1)] * 3 + [Fraction(0), Fraction(1, 2), Fraction(1, 2)] + [Fraction(2)] * 3,
+    "p3": [Fraction(0)] * 4 + [Fraction(1)] + [Fraction(4)] * 4,
+}
+
+
+def _params(U):
+    ks = sorted(set(U))
+    return ks + [(a + b) / 2 for a, b in zip(ks[:-1], ks[1:])] + [ks[-1] - Fraction(1, 10 ** 12), ks[0] + Fraction(1, 3)]
+
+
+def task_indexing(name):
+    """f[i, j], f[slice, j], f[i], f[slice] select rows of the spec table: EVERY int index in [-n, n) and every slice over a grid of
+    start / stop / step (negative steps, open ends, bounds beyond +-n), all j, several u; out-of-range ints raise IndexError."""
+    fn = "functions.IndexableFunction.__getitem__"
+    U = B_VECTORS[name]
+    p = U.count(U[0]) - 1
+    n = len(U) - p - 1
+    f = functions.Function(list(U))
+    vals = [None, 0, 1, 2, n - 1, n, n + 2, -1, -2, -n, -n - 1, -n - 3]
+    steps = [None, 1, 2, -1, -2, n + 1, -n - 1]
+    bad, cases = [], 0
+    for u in _params(U):
+        for j in range(p + 1):
+            table = tuple(spec.basis(U, p, j, u))
+            for i in range(-n, n):
+                cases += 1
+                try:
+                    got = f[i, j](u)
+                except Exception as e:
+                    got = type(e).__name__
+                if got != table[i]:
+                    bad.append(("f[%d,%d](%s)" % (i, j, u), str(got), str(table[i])))
+            for a in vals:
+                for b in vals:
+                    for st in steps:
+                        sl = slice(a, b, st)
+                        cases += 1
+                        try:
+                            got = tuple(f[sl, j](u))
+                        except Exception as e:
+                            got = type(e).__name__
+                        if got != table[sl]:
+                            bad.append(("f[%s:%s:%s,%d](%s)" % (a, b, st, j, u), str(got)[:80], str(table[sl])[:80]))
+        tablep = tuple(spec.basis(U, p, p, u))
+        for sl in (slice(None, None, -1), slice(None, None, -2), slice(2, None, -1), slice(-1, -n - 1, -1), slice(1, None)):
+            cases += 1
+            try:
+                got = tuple(f[sl](u))
+            except Exception as e:
+                got = type(e).__name__
+            if got != tablep[sl]:
+                bad.append(("f[%s](%s)" % (sl, u), str(got)[:80], str(tablep[sl])[:80]))
+    for i in (n, n + 3, -n - 1):
+        cases += 1
+        try:
+            f[i, p]
+            bad.append(("f[%d,%d]" % (i, p), "accepted", "IndexError"))
+        except IndexError:
+            pass
+        except Exception as e:
+            bad.append(("f[%d,%d]" % (i, p), type(e).__name__, "IndexError"))
+    if bad:
+        return [ob("%s:rows-of-the-table[%s]" % (fn, name), fn, FAILED, "B", "exhaustive-enumeration", 0.0,
+                   "%d of %d index forms select something else than the rows of the Cox-de Boor table; first: %s gave %s, expected %s" % (
+                       (len(bad), cases) + bad[0]), dict(kind="c02.indexing", vector=name, first=list(bad[0])))]
+    return [ob("%s:rows-of-the-table[%s]" % (fn, name), fn, PROVED, "B", "exhaustive-enumeration", 0.0,
+               "%d index forms (all ints in [-n, n), %d x %d x %d slices, all j, %d parameters): rows of the Cox-de Boor table" % (
+                   cases, len(vals), len(vals), len(steps), len(_params(U)))), {"_stats": dict(cases=cases)}]
+
+
+task_indexing.contract_fn = "functions.IndexableFunction.__getitem__"
+
+
+def _mutations():
+    return [
+        ("degree+=1", lambda f: setattr(f, "degree", f.degree + 1)),
+        ("degree-=1", lambda f: setattr(f, "degree", f.degree - 1)),
+        ("knotvector.insert", lambda f: f.knotvector.insert([(f.knotvector.limits[0] + 2 * f.knotvector.limits[1]) / 3])),
+        ("knotvector.shift", lambda f: f.knotvector.shift(Fraction(1, 7))),
+        ("knotvector.scale", lambda f: f.knotvector.scale(Fraction(3, 2))),
+        ("knotvector=", lambda f: setattr(f, "knotvector", [Fraction(0)] * 3 + [Fraction(2)] + [Fraction(5)] * 3)),
+        ("weights=", lambda f: setattr(f, "weights", [Fraction(i + 1) for i in range(f.npts)])),
+        ("weights=None", lambda f: setattr(f, "weights", None)),
+    ]
+
+
+def task_inplace_history(name):
+    """One Function object: evaluate, change its knot vector IN PLACE (or through a setter), evaluate again - after every step f(u), f[:, p](u)
+    and f[i, j](u) are the table of the knot vector the object has NOW (all sequences of two changes)."""
+    fn = "functions.IndexableFunction.eval"
+    U = B_VECTORS[name]
+    muts = _mutations()
+    bad, cases = [], 0
+    for a in range(len(muts)):
+        for b in range(len(muts)):
+            f = functions.Function(list(U))
+            f(U[0])
+            trail = []
+            for label, m in (muts[a], muts[b]):
+                try:
+                    m(f)
+                except (ValueError, AssertionError):
+                    trail.append(label + "(refused)")
+                    continue
+                trail.append(label)
+                V = [Fraction(x) for x in f.knotvector]
+                p = f.degree
+                W = None if f.weights is None else list(f.weights)
+                if W is not None and len(W) != f.npts:
+                    break       # weights of the OLD number of functions: the caller has to set new ones (outside the property)
+                for u in (V[0], (V[0] + V[-1]) / 2, V[-1], (2 * V[0] + V[-1]) / 3):
+                    cases += 1
+                    want = tuple(spec.basis(V, p, p, u, W))
+                    try:
+                        got = (tuple(f(u)), tuple(f[:, p](u)), f[0, p](u), f[-1, 0](u))
+                    except Exception as e:
+                        got = type(e).__name__
+                    exp = (want, want, want[0], tuple(spec.basis(V, p, 0, u, W))[-1])
+                    if got != exp:
+                        bad.append((trail[:], str(u), str(got)[:120], str(exp)[:120]))
+                        break
+    if bad:
+        return [ob("%s:history:in-place-change[%s]" % (fn, name), fn, FAILED, "B", "exhaustive-enumeration", 0.0,
+                   "%d histories give values of another knot vector / weight list than the object has; first: after %s at u=%s got %s expected %s" % (
+                       (len(bad),) + tuple(bad[0])), dict(kind="c02.inplace", vector=name, trail=bad[0][0], u=bad[0][1]))]
+    return [ob("%s:history:in-place-change[%s]" % (fn, name), fn, PROVED, "B", "exhaustive-enumeration", 0.0,
+               "%d evaluations after all sequences of two of %d changes (in-place degree / insert / shift / scale, setters): always the table of the current knot vector" % (
+                   cases, len(muts))), {"_stats": dict(cases=cases)}]
+
+
+task_inplace_history.contract_fn = "functions.IndexableFunction.eval"
+
+
 def tasks(tier, seed):
     from ..pyvc.driver import verify
     from ..contracts import misc
@@ -186,11 +326,17 @@ def tasks(tier, seed):
             ts.append((task_function, (sh, True)))
         if small and (sh[0] <= 2 or tier != "quick"):
             ts.append((task_history, (sh,)))
+    for name in B_VECTORS:
+        ts.append((task_indexing, (name,)))
+        ts.append((task_inplace_history, (name,)))
     return ts
 
 
 def replay(o):
     w = o["witness"]
+    if w["kind"] in ("c02.indexing", "c02.inplace"):
+        r = (task_indexing if w["kind"] == "c02.indexing" else task_inplace_history)(w["vector"])[0]
+        return r["status"] == FAILED, "rows of the Cox-de Boor table of the knot vector the object has now (vector %s)" % B_VECTORS[w["vector"]], r["detail"]
     shape, pt, U, ks = concrete_inputs(w)
     p = shape[0]
     n = len(U) - p - 1
